@@ -237,7 +237,13 @@ def client_actor(world, cid_hint, spec, result):
         for i, r in enumerate(reqs):
             head, body = request_bytes(cid, i, r)
             if waiting_client and r.get("expect") and body:
-                c.send(head)
+                eager = min(r.get("eager", 0), len(body) - 1)
+                if eager > 0:
+                    # a client may start sending its body before the 100 Continue arrives
+                    c.send(head + body[:eager])
+                    body = body[eager:]
+                else:
+                    c.send(head)
                 result.setdefault("waited_for", []).append(i)
                 fin0, int0 = saw_interim_or_final(c, i)
                 target_int = int0 + 1
@@ -260,6 +266,7 @@ def client_actor(world, cid_hint, spec, result):
             else:
                 c.send(head + body, spec.get("pieces"))
             sent = i + 1
+            result["sent"] = sent
             if spec.get("pingpong"):
                 ok = reading_wait(lambda cl, i=i: nfinal(cl)[0] >= i + 1)
                 if not ok:
